@@ -282,11 +282,15 @@ class SplineObject(object):
             if self.bases[d].periodic < 0:
                 C = np.zeros((n-1, n))
                 for i in range(n-1):
+                    if k[i+p+1] == k[i+1]:
+                        continue # knot of full multiplicity: this function has empty support
                     C[i,i]   = -float(p) / (k[i+p+1] - k[i+1])
                     C[i,i+1] =  float(p) / (k[i+p+1] - k[i+1])
             else:
                 C = np.zeros((n, n))
                 for i in range(n):
+                    if k[i+p+1] == k[i+1]:
+                        continue # knot of full multiplicity: this function has empty support
                     ip1 = np.mod(i+1,n)
                     C[i,i]   = -float(p) / (k[i+p+1] - k[i+1])
                     C[i,ip1] +=  float(p) / (k[i+p+1] - k[i+1])
